@@ -75,6 +75,13 @@ func New(open func() (ReadAtCloser, error), gracePeriod time.Duration) *SharedFi
 // the pool evicts or [SharedFile.Close] is called. Pass nil for
 // pool to disable pooling (equivalent to [New]).
 func NewWithPool(open func() (ReadAtCloser, error), gracePeriod time.Duration, pool *fdpool.Pool) *SharedFile {
+	// A pool of non-positive capacity never evicts: it means "pooling
+	// disabled", so the grace timer must govern the descriptor, exactly
+	// as with no pool at all. Keeping the no-op pool here would leave
+	// every idle descriptor open until Close.
+	if pool != nil && pool.Stats().Capacity <= 0 {
+		pool = nil
+	}
 	return &SharedFile{open: open, gracePeriod: gracePeriod, pool: pool}
 }
 
